@@ -16,7 +16,11 @@ the dissector theorems below state, per layer, that each output field is the val
 `dissect_encodeHeader` composes them for every layer combination, and `decode_encode'` is the datagram
 theorem with raw-header records given by an abstract header (no dissection hypothesis left).
 
-The theorems are about the code after the `fix:` commits F5, F6, F7, F8, F14, F15 (the model mirrors it).
+The theorems are about the code after the `fix:` commits F5, F6, F7, F8, F14, F15, F17 (the model mirrors
+it).  F17: until the repair the specification encoder fixed the IPv4 header length at five words and
+`decodeIPv4Header` skipped a fixed 20 octets; the property has no such restriction, so `encIPv4` now
+carries the options and every IPv4 statement below is quantified over them (`OptsWF`: 0 … 40 octets, a
+multiple of four, any content).
 -/
 namespace Vflow.C07
 open Vflow Vflow.Sflow Vflow.Packet
@@ -76,9 +80,16 @@ theorem sample_roundtrip (s : ASample) (t : Bytes) (hwf : s.WF) :
 
 /-! ## the dissector: each output field is the value at its RFC position -/
 
-/-- **C07 (IPv4, IHL = 5)**: RFC 791 positions -/
-theorem ipv4_fields (h : IPv4Hdr) (rest : Bytes) (hwf : h.WF) : decodeIPv4 (encIPv4 h ++ rest) = .ok (h, rest) :=
-  decodeIPv4_enc h rest hwf
+/-- **C07 (IPv4, every header length IHL = 5 … 15)**: RFC 791 positions; whatever the option octets
+are, the fields are the wire values and the transport layer is handed exactly what follows the options -/
+theorem ipv4_fields (h : IPv4Hdr) (opts rest : Bytes) (hwf : h.WF) (ho : OptsWF opts) :
+    decodeIPv4 (encIPv4 h opts ++ rest) = .ok (h, rest) :=
+  decodeIPv4_enc h opts rest hwf ho
+
+/-- the guard the F17 repair added: a sampled header that holds the 20 fixed octets but fewer than the
+header length field announces is `errShortIPv4HeaderLength`, not a packet with fields from elsewhere -/
+theorem ipv4_options_cut (d : Bytes) (h : 20 ≤ d.length) (h2 : d.length < ihlOctets (oct d 0)) :
+    decodeIPv4 d = .err .ip4Short := decodeIPv4_shortOpts d h h2
 
 /-- **C07 (IPv6)**: RFC 8200 positions -/
 theorem ipv6_fields (h : IPv6Hdr) (rest : Bytes) (hwf : h.WF) : decodeIPv6 (encIPv6 h ++ rest) = .ok (h, rest) :=
@@ -110,13 +121,14 @@ theorem vlan_fields (dst src : Bytes) (tci et : Nat) (rest : Bytes)
     decodeEthernet (encEthVlan dst src tci et ++ rest) = .ok (⟨src, dst, tci % 4096, et⟩, rest) :=
   decodeEthernet_vlan_enc dst src tci et rest hwf
 
-/-- **C07 (whole header)**: an Ethernet / IPv4 / TCP header dissects into exactly its three layers -/
-theorem dissect_eth_ipv4_tcp (dst src : Bytes) (h : IPv4Hdr) (sp dp seq ack off fl win cs urg : Nat) (payload : Bytes)
-    (hm : dst.length = 6 ∧ src.length = 6) (hwf : h.WF) (hp : h.protocol = 6)
+/-- **C07 (whole header)**: an Ethernet / IPv4 (any options) / TCP header dissects into exactly its three
+layers: the TCP fields are those after the options -/
+theorem dissect_eth_ipv4_tcp (dst src : Bytes) (h : IPv4Hdr) (opts : Bytes) (sp dp seq ack off fl win cs urg : Nat)
+    (payload : Bytes) (hm : dst.length = 6 ∧ src.length = 6) (hwf : h.WF) (ho : OptsWF opts) (hp : h.protocol = 6)
     (ht : sp < 65536 ∧ dp < 65536 ∧ off < 16 ∧ fl < 512) :
-    dissect (encEth dst src 0x0800 ++ (encIPv4 h ++ (encTCP sp dp seq ack off fl win cs urg ++ payload))) 1 =
+    dissect (encEth dst src 0x0800 ++ (encIPv4 h opts ++ (encTCP sp dp seq ack off fl win cs urg ++ payload))) 1 =
       .ok ⟨⟨src, dst, 0, 0x0800⟩, .v4 h, .tcp sp dp off 0 fl⟩ :=
-  dissect_eth_ipv4_tcp_enc dst src h sp dp seq ack off fl win cs urg payload hm hwf hp ht
+  dissect_eth_ipv4_tcp_enc dst src h opts sp dp seq ack off fl win cs urg payload hm hwf ho hp ht
 
 /-- **C07 (whole header, tagged, IPv6/UDP)** -/
 theorem dissect_vlan_ipv6_udp (dst src : Bytes) (tci : Nat) (h : IPv6Hdr) (sp dp len cs : Nat) (payload : Bytes)
@@ -148,15 +160,16 @@ example : decode [] (encodeSflow sample) = .ok (expected sample) ∧
 
 `AHeader` (`Vflow.Proofs.HeaderSpec`) = optional Ethernet layer (MAC addresses, optional 802.1Q tag with
 4 priority bits and a 12-bit VLAN id; the ethertype is the one of the network layer, any other value is
-rejected by the code with `errUnknownEtherType`) × IPv4 (IHL = 5) | IPv6 × TCP | UDP | ICMP/ICMPv6.
+rejected by the code with `errUnknownEtherType`) × IPv4 with options (IHL = 5 … 15: 0 … 40 option octets of
+any content, a multiple of four) | IPv6 × TCP | UDP | ICMP/ICMPv6.
 `eth = none` is sFlow header protocol 11 / 12.  No combination is excluded: the code accepts protocol
 numbers 1 and 58 as ICMP after either network layer.  The only place where the expected packet depends
 on the trailing payload is ICMP: the struct's `RestHeader` is `b[4:]`, i.e. the 4-octet rest of the
 header *followed by everything up to the end of the sampled header* — hence `expectedPacket h payload`. -/
 
 /-- **C07 (dissector, every combination)**: for every well-formed abstract sampled header — with or
-without Ethernet layer, with or without 802.1Q tag, IPv4 or IPv6, TCP, UDP or ICMP — and every trailing
-payload, `packet.Decoder` on the encoded header under its header protocol returns exactly the expected
+without Ethernet layer, with or without 802.1Q tag, IPv4 (with or without options, every header length
+5 … 15 words) or IPv6, TCP, UDP or ICMP — and every trailing payload, `packet.Decoder` on the encoded header under its header protocol returns exactly the expected
 packet: every output field equals the abstract field laid out at its RFC position. -/
 theorem dissect_encodeHeader (h : AHeader) (payload : Bytes) (hwf : wfHeader h) :
     dissect (encodeHeader h ++ payload) (protoOf h) = .ok (expectedPacket h payload) :=
@@ -174,7 +187,7 @@ theorem decode_encode' (d : ADatagram') (hwf : d.WF) : decode [] (encodeSflow' d
 /-- 802.1Q tag (priority bits 0b1010, VLAN 100) + IPv4 + ICMP echo request -/
 def hdrVlanV4Icmp : AHeader :=
   { eth := some ⟨[2, 0, 0, 0, 0, 1], [2, 0, 0, 0, 0, 2], some (10, 100)⟩,
-    net := .v4 ⟨4, 0, 34, 1, 2, 185, 64, 1, 0xabcd, [192, 0, 2, 1], [192, 0, 2, 2]⟩,
+    net := .v4 ⟨4, 0, 34, 1, 2, 185, 64, 1, 0xabcd, [192, 0, 2, 1], [192, 0, 2, 2]⟩ [],
     trans := .icmp 8 0 0x1234 [0, 1, 0, 2] }
 
 /-- plain Ethernet + IPv6 + TCP (SYN|ACK, data offset 5) -/
@@ -187,15 +200,33 @@ def hdrEthV6Tcp : AHeader :=
 /-- header protocol 11: the sampled header starts at the IPv4 header; UDP -/
 def hdrV4Udp : AHeader :=
   { eth := none,
-    net := .v4 ⟨4, 0, 28, 7, 0, 0, 64, 17, 0, [192, 0, 2, 1], [192, 0, 2, 2]⟩,
+    net := .v4 ⟨4, 0, 28, 7, 0, 0, 64, 17, 0, [192, 0, 2, 1], [192, 0, 2, 2]⟩ [],
     trans := .udp 53 54 8 0 }
 
+/-- header protocol 11, IPv4 with a record-route option (IHL 7: eight option octets whose first four read
+as "ports 1799 → 1216") + UDP 53 → 4660: the F17 witness `corpus/C07/dissect--F17-ipv4-options.txt` -/
+def hdrV4OptsUdp : AHeader :=
+  { eth := none,
+    net := .v4 ⟨4, 0, 36, 4660, 2, 185, 64, 17, 0xabcd, [192, 0, 2, 1], [192, 0, 2, 2]⟩ [7, 7, 4, 192, 0, 2, 3, 0],
+    trans := .udp 53 4660 20 0 }
+
+/-- Ethernet + IPv4 with the longest header the length field can announce (IHL 15: forty option octets,
+here no-operation options) + TCP -/
+def hdrEthV4MaxOptsTcp : AHeader :=
+  { eth := some ⟨[2, 0, 0, 0, 0, 1], [2, 0, 0, 0, 0, 2], none⟩,
+    net := .v4 ⟨4, 0, 80, 1, 0, 0, 64, 6, 0, [192, 0, 2, 1], [192, 0, 2, 2]⟩ (List.replicate 40 1),
+    trans := .tcp 443 51000 1 2 5 0x12 1024 0 0 }
+
 theorem hdrVlanV4Icmp_wf : wfHeader hdrVlanV4Icmp := by
-  simp [wfHeader, hdrVlanV4Icmp, AEth.WF, ANet.WF, IPv4Hdr.WF, ATrans.WF, ATrans.protoOK, ANet.proto]
+  simp [wfHeader, hdrVlanV4Icmp, AEth.WF, ANet.WF, IPv4Hdr.WF, OptsWF, ATrans.WF, ATrans.protoOK, ANet.proto]
 theorem hdrEthV6Tcp_wf : wfHeader hdrEthV6Tcp := by
   simp [wfHeader, hdrEthV6Tcp, AEth.WF, ANet.WF, IPv6Hdr.WF, ATrans.WF, ATrans.protoOK, ANet.proto]
 theorem hdrV4Udp_wf : wfHeader hdrV4Udp := by
-  simp [wfHeader, hdrV4Udp, ANet.WF, IPv4Hdr.WF, ATrans.WF, ATrans.protoOK, ANet.proto]
+  simp [wfHeader, hdrV4Udp, ANet.WF, IPv4Hdr.WF, OptsWF, ATrans.WF, ATrans.protoOK, ANet.proto]
+theorem hdrV4OptsUdp_wf : wfHeader hdrV4OptsUdp := by
+  simp [wfHeader, hdrV4OptsUdp, ANet.WF, IPv4Hdr.WF, OptsWF, ATrans.WF, ATrans.protoOK, ANet.proto]
+theorem hdrEthV4MaxOptsTcp_wf : wfHeader hdrEthV4MaxOptsTcp := by
+  simp [wfHeader, hdrEthV4MaxOptsTcp, AEth.WF, ANet.WF, IPv4Hdr.WF, OptsWF, ATrans.WF, ATrans.protoOK, ANet.proto]
 
 set_option maxRecDepth 20000 in
 /-- non-vacuity (VLAN + IPv4 + ICMP): the hypotheses hold, and by evaluation the octets dissect to the
@@ -224,19 +255,44 @@ example : wfHeader hdrV4Udp ∧ protoOf hdrV4Udp = 11 ∧
       ⟨{}, .v4 ⟨4, 0, 28, 7, 0, 0, 64, 17, 0, [192, 0, 2, 1], [192, 0, 2, 2]⟩, .udp 53 54⟩ :=
   ⟨hdrV4Udp_wf, rfl, by decide, rfl⟩
 
-/-- a well-formed abstract datagram whose flow sample carries the three headers above as raw-header
-records (44 + 2, 74 and 28 + 3 sampled octets: padding 2, 2 and 1), then a counter sample -/
+set_option maxRecDepth 20000 in
+/-- non-vacuity with IPv4 options (IHL 7, header protocol 11): the hypotheses hold; the encoded header is
+octet for octet the F17 witness (first octet 0x47); by evaluation it dissects to the ports *after* the
+options, 53 → 4660, not to 1799 → 1216 which the option octets spell at offset 20 -/
+example : wfHeader hdrV4OptsUdp ∧ protoOf hdrV4OptsUdp = 11 ∧
+    encodeHeader hdrV4OptsUdp =
+      [0x47, 0, 0, 36, 0x12, 0x34, 0x40, 0xb9, 64, 17, 0xab, 0xcd, 192, 0, 2, 1, 192, 0, 2, 2,
+       7, 7, 4, 192, 0, 2, 3, 0, 0, 53, 0x12, 0x34, 0, 20, 0, 0] ∧
+    dissect (encodeHeader hdrV4OptsUdp ++ []) 11 =
+      .ok ⟨{}, .v4 ⟨4, 0, 36, 4660, 2, 185, 64, 17, 0xabcd, [192, 0, 2, 1], [192, 0, 2, 2]⟩, .udp 53 4660⟩ ∧
+    (7 * 256 + 7, 4 * 256 + 192) = (1799, 1216) :=
+  ⟨hdrV4OptsUdp_wf, rfl, by decide, by decide, rfl⟩
+
+set_option maxRecDepth 20000 in
+/-- non-vacuity at the upper end (IHL 15, Ethernet + IPv4 + TCP): 14 + 60 + 20 octets, TCP fields found
+after forty option octets; and a header cut inside the options is an error, not a packet -/
+example : wfHeader hdrEthV4MaxOptsTcp ∧ (encodeHeader hdrEthV4MaxOptsTcp).length = 94 ∧
+    dissect (encodeHeader hdrEthV4MaxOptsTcp ++ [1]) 1 = .ok (expectedPacket hdrEthV4MaxOptsTcp [1]) ∧
+    (expectedPacket hdrEthV4MaxOptsTcp [1]).l4 = .tcp 443 51000 5 0 0x12 ∧
+    dissect ((encodeHeader hdrEthV4MaxOptsTcp).take 73) 1 = .err .ip4Short :=
+  ⟨hdrEthV4MaxOptsTcp_wf, by decide, by decide, rfl, by decide⟩
+
+/-- a well-formed abstract datagram whose first flow sample carries three of the headers above as raw-header
+records (44 + 2, 74 and 28 + 3 sampled octets: padding 2, 2 and 1) and whose second carries the header with
+IPv4 options (36 sampled octets), then a counter sample -/
 def sample' : ADatagram' :=
   { agent := [10, 0, 0, 1], subID := 0, seqNo := 1, upTime := 2,
     samples := [
       .flow 7 0 5 1 2 0 3 4 [.raw 1500 4 hdrVlanV4Icmp [9, 9], .raw 90 4 hdrEthV6Tcp [], .raw 31 0 hdrV4Udp [1, 2, 3]],
+      .flow 8 0 5 1 2 0 3 4 [.raw 40 4 hdrV4OptsUdp []],
       .counter 9 2 17 [.known 1001 [1, 2, 3, 4, 5]]] }
 
 set_option maxRecDepth 100000 in
 /-- non-vacuity of `decode_encode'`: by evaluation, the concrete datagram decodes to its expected value;
 the last raw-header record wins the `RawHeader` slot of the sample (a Go map) -/
 example : decode [] (encodeSflow' sample') = .ok (expected' sample') ∧
-    ((expected' sample').samples.map (·.recs.raw)) = [some (expectedPacket hdrV4Udp [1, 2, 3])] ∧
+    ((expected' sample').samples.map (·.recs.raw)) =
+      [some (expectedPacket hdrV4Udp [1, 2, 3]), some (expectedPacket hdrV4OptsUdp [])] ∧
     (expected' sample').counters.length = 1 := by decide
 
 /-! ## Obligations over regenerated facts
